@@ -144,6 +144,14 @@ theorem neighbour_table_shape (L : Layout) (hx : 0 < L.mx) (hy : 0 < L.my) (hz :
     · rw [axisStep_true, if_neg (by omega), if_neg (by omega)]; simp
   simp only [ax _ _ _ h1, ax _ _ _ h2, ax _ _ _ h3, combine, indexOf_gridPosition]
 
+/-- `get_neighbours` (used to smooth the copy levels) lists exactly the face neighbours of the neighbour table,
+in the order x-, x+, y-, y+, z-, z+ -/
+theorem getNeighbours_faces (L : Layout) (hx : 0 < L.mx) (hy : 0 < L.my) (hz : 0 < L.mz) (s : Nat) (hs : s < L.size) :
+    getNeighbours L s = [22, 21, 24, 23, 26, 25].filterMap (ngb L s) ∧
+    dirNames.getD 22 "" = "FACE_X_N" ∧ dirNames.getD 21 "" = "FACE_X_P" ∧ dirNames.getD 24 "" = "FACE_Y_N"
+      ∧ dirNames.getD 23 "" = "FACE_Y_P" ∧ dirNames.getD 26 "" = "FACE_Z_N" ∧ dirNames.getD 25 "" = "FACE_Z_P" :=
+  ⟨getNeighbours_faces_aux L hx hy hz s hs, by decide⟩
+
 /-- non-vacuity / the degenerate layouts: one subgrid on a periodic axis is its own neighbour in both
 directions, two subgrids are each other's neighbour in both directions, and mutuality still holds -/
 example : let L : Layout := ⟨1, 2, 3, 1, 1, 1, true, true, false⟩
